@@ -47,6 +47,12 @@ def _skeleton(ctx, name, body):
             sk["fresh_T"] += c.edges_for(True)
             sk["fresh_F"] += c.edges_for(False)
             sk["timeout_terms"].append(t[3][1])
+        elif is_call_term(t, "PartialOrd::le", "PartialOrd>::le") and len(t[3]) == 2 and any(is_call_term(s, "Instant::duration_since") for s in subterms(t[3][1])) \
+                and not any(is_call_term(s, "Instant::duration_since") for s in subterms(t[3][0])):
+            # the same test spelt from the other side: `idle >= timeout` is canonicalised to le(timeout, idle); true = expired
+            sk["fresh_T"] += c.edges_for(False)
+            sk["fresh_F"] += c.edges_for(True)
+            sk["timeout_terms"].append(t[3][0])
         elif isinstance(t, tuple) and t[0] == "binop" and t[1] == "Lt" and var_name(t[2]) and _is_min_operand(ctx, body, t[3]):
             # `<count of kept sessions> < <configured minimum>`: the count variable is whatever is compared with the minimum
             sk["min_T"] += c.edges_for(True)
